@@ -43,10 +43,15 @@ func Main(args []string) int {
 	stride := fs.Int("stride", 1, "tamper: take every stride-th case")
 	startAt := fs.Int("from", 0, "tamper: skip cases below")
 	intent := fs.String("intent", "", "tamper: announce cases")
+	partF := fs.Int("part", 0, "sign/otvole: this process takes the cases with index % parts == part")
+	partsF := fs.Int("parts", 1, "sign/otvole: number of parallel driver processes")
+	cacheF := fs.String("cache", "", "directory for material that takes minutes to sample (CGGMP21 auxiliary parameters)")
 	if err := fs.Parse(args); err != nil {
 		return 2
 	}
 	seed, thor, scale = *sd, *tier == "thorough", *sc
+	part, parts = *partF, *partsF
+	cacheDir = *cacheF
 	only = map[string]bool{}
 	for _, n := range strings.Split(*onlyF, ",") {
 		if n != "" {
